@@ -371,6 +371,36 @@ theorem is_hermitian_fermion_complete (D : Nat) (hD : 0 < D) (tol : Rat) (ht : 0
     Proofs.C03.normal_ordered_exact_regime_aux D hD tol (le_of_lt ht) h1 (hcFermion a) lh]
   exact (is_hermitian_fermion_iff a wa hv).1 hh t
 
+/-- **`is_hermitian(FermionOperator)` decides Hermiticity in the Spec (executed function, real
+tolerance)**: for lattice inputs `(1/D)ℤ[i]`, `0 < tol`, `tol·D ≤ 1`, and under the decidable
+exact-regime hypothesis that coefficients of the two normal-ordered dictionaries which `==` calls
+close are equal, the coded test is True IF AND ONLY IF `⟨out|A|s⟩ = conj ⟨s|A|out⟩` on all Fock
+basis states. -/
+theorem is_hermitian_fermion_iff_tol (D : Nat) (hD : 0 < D) (tol : Rat) (ht : 0 < tol) (h1 : tol * D ≤ 1)
+    (a : Op) (wa : Dict.WF a) (hv : ∀ e ∈ a, ∀ f ∈ e.1, f.2 < 2) (la : ∀ e ∈ a, Proofs.C03.Lat D e.2)
+    (hexact : ∀ t, Spec.C02.coefClose tol
+        (Dict.get? (C03.normalOrdered tol .fermion a) t)
+        (Dict.get? (C03.normalOrdered tol .fermion (hcFermion a)) t) = true →
+      Dict.getD (C03.normalOrdered tol .fermion a) t 0 =
+        Dict.getD (C03.normalOrdered tol .fermion (hcFermion a)) t 0) :
+    isHermitianFermion tol a = true ↔ ∀ s out, Spec.melF a out s = (Spec.melF a s out).conj := by
+  constructor
+  · intro h
+    unfold isHermitianFermion at h
+    rw [isclose_iff_spec] at h
+    have lh : ∀ e ∈ hcFermion a, Proofs.C03.Lat D e.2 := by
+      rw [Proofs.C03.hcFermion_eq_map a wa hv]
+      intro e he
+      obtain ⟨x, hx, rfl⟩ := List.mem_map.1 he
+      obtain ⟨m, n, h1', h2'⟩ := la x hx
+      exact ⟨m, -n, by simp [GQ.conj, h1'], by simp [GQ.conj, h2']; ring⟩
+    apply (is_hermitian_fermion_iff a wa hv).2
+    intro t
+    rw [← Proofs.C03.normal_ordered_exact_regime_aux D hD tol (le_of_lt ht) h1 a la,
+      ← Proofs.C03.normal_ordered_exact_regime_aux D hD tol (le_of_lt ht) h1 (hcFermion a) lh]
+    exact hexact t (h t)
+  · exact is_hermitian_fermion_complete D hD tol ht h1 a wa hv la
+
 /-! ## `is_hermitian(QubitOperator)` — Pauli strings are Hermitian and linearly independent -/
 
 /-- **distinct canonical Pauli strings are linearly independent** on `n` qubits (trace
